@@ -23,13 +23,13 @@ theorem sh_put_upd (h : Heap) (i : Nat) (o : Option SNode) :
   funext j; rw [sh_put]; rfl
 
 section
-variable (a b : Nat) (sh0 : Nat → Option Node)
+variable (a b : Nat) (P : Nat → Prop) (sh0 : Nat → Option Node)
 
 /-- the edge points below both levels: a terminal or a node whose level is neither `a` nor `b` -/
 def Bel (c : Edge) : Prop :=
   match c with
   | .term _ => True
-  | .inner k => ∃ n, sh0 k = some n ∧ n.level ≠ a ∧ n.level ≠ b
+  | .inner k => ∃ n, sh0 k = some n ∧ n.level ≠ a ∧ n.level ≠ b ∧ P n.level
 
 /-- the edge points to a node of level `b` -/
 def AtB (c : Edge) : Prop := ∃ k n, c = .inner k ∧ sh0 k = some n ∧ n.level = b
@@ -48,9 +48,9 @@ structure Pre (old : List Nat) : Prop where
   ab : a ≠ b
   old_iff : ∀ i, i ∈ old ↔ ∃ n, sh0 i = some n ∧ n.level = a
   old_nodup : old.Nodup
-  lowKids : ∀ i n, sh0 i = some n → n.level = b → Bel a b sh0 n.t ∧ Bel a b sh0 n.e
+  lowKids : ∀ i n, sh0 i = some n → n.level = b → Bel a b P sh0 n.t ∧ Bel a b P sh0 n.e
   upKids : ∀ i n, sh0 i = some n → n.level = a →
-    (Bel a b sh0 n.t ∨ AtB b sh0 n.t) ∧ (Bel a b sh0 n.e ∨ AtB b sh0 n.e)
+    (Bel a b P sh0 n.t ∨ AtB b sh0 n.t) ∧ (Bel a b P sh0 n.e ∨ AtB b sh0 n.e)
   nored : ∀ i n, sh0 i = some n → n.t ≠ n.e
   uniq : ∀ i j n, sh0 i = some n → sh0 j = some n → i = j
 
@@ -64,7 +64,7 @@ def SurvL (sh : Nat → Option Node) (i : Nat) : Prop :=
 
 /-- a rewritten node of the old upper level -/
 def Rew (old : List Nat) (sh : Nat → Option Node) (lo todo : List Nat) (i : Nat) : Prop :=
-  i ∈ old ∧ i ∉ todo ∧ ∃ n c1 c2, sh0 i = some n ∧ ¬ (Bel a b sh0 n.t ∧ Bel a b sh0 n.e) ∧
+  i ∈ old ∧ i ∉ todo ∧ ∃ n c1 c2, sh0 i = some n ∧ ¬ (Bel a b P sh0 n.t ∧ Bel a b P sh0 n.e) ∧
     sh i = some ⟨b, c1, c2⟩ ∧
     MkR a sh lo todo (cof0 b sh0 n.t).1 (cof0 b sh0 n.e).1 c1 ∧
     MkR a sh lo todo (cof0 b sh0 n.t).2 (cof0 b sh0 n.e).2 c2
@@ -73,8 +73,8 @@ structure J (old : List Nat) (ext : Nat → Nat) (sh : Nat → Option Node) (up 
     Prop where
   frame : ∀ k n, sh0 k = some n → n.level ≠ a → n.level ≠ b → sh k = some n
   todoSh : ∀ i ∈ todo, i ∈ old ∧ sh i = sh0 i
-  upC : ∀ i ∈ up, SurvL b sh0 sh i ∨ Rew a b sh0 old sh lo todo i
-  loC : ∀ j ∈ lo, ∃ x y, sh j = some ⟨a, x, y⟩ ∧ Bel a b sh0 x ∧ Bel a b sh0 y ∧ x ≠ y ∧
+  upC : ∀ i ∈ up, SurvL b sh0 sh i ∨ Rew a b P sh0 old sh lo todo i
+  loC : ∀ j ∈ lo, ∃ x y, sh j = some ⟨a, x, y⟩ ∧ Bel a b P sh0 x ∧ Bel a b P sh0 y ∧ x ≠ y ∧
     (j ∈ old → sh0 j = sh j) ∧ (j ∉ old → sh0 j = none ∨ ∃ n, sh0 j = some n ∧ n.level = b)
   loU : ∀ j ∈ lo, ∀ k ∈ lo, sh j = sh k → j = k
   loT : ∀ j ∈ lo, ∀ i ∈ todo, sh j ≠ sh i
@@ -94,7 +94,7 @@ structure J (old : List Nat) (ext : Nat → Nat) (sh : Nat → Option Node) (up 
 end
 
 section
-variable {a b : Nat} {sh0 : Nat → Option Node} {old : List Nat} {ext : Nat → Nat}
+variable {a b : Nat} {P : Nat → Prop} {sh0 : Nat → Option Node} {old : List Nat} {ext : Nat → Nat}
 
 theorem MkR.mono {sh sh' : Nat → Option Node} {lo lo' todo todo' : List Nat} {x y c : Edge}
     (h : MkR a sh lo todo x y c)
@@ -106,15 +106,15 @@ theorem MkR.mono {sh sh' : Nat → Option Node} {lo lo' todo todo' : List Nat} {
     exact Or.inr ⟨hne, j, this.1, hc, this.2 ▸ hs⟩
 
 theorem J.up_live {sh : Nat → Option Node} {up lo todo : List Nat}
-    (hj : J a b sh0 old ext sh up lo todo) {i : Nat} (hi : i ∈ up) : sh i ≠ none := by
+    (hj : J a b P sh0 old ext sh up lo todo) {i : Nat} (hi : i ∈ up) : sh i ≠ none := by
   rcases hj.upC i hi with ⟨n, _, _, h⟩ | ⟨_, _, n, c1, c2, _, _, h, _⟩ <;> simp [h]
 
 theorem J.lo_live {sh : Nat → Option Node} {up lo todo : List Nat}
-    (hj : J a b sh0 old ext sh up lo todo) {i : Nat} (hi : i ∈ lo) : sh i ≠ none := by
+    (hj : J a b P sh0 old ext sh up lo todo) {i : Nat} (hi : i ∈ lo) : sh i ≠ none := by
   obtain ⟨x, y, h, _⟩ := hj.loC i hi; simp [h]
 
-theorem J.todo_live {sh : Nat → Option Node} {up lo todo : List Nat} (hp : Pre a b sh0 old)
-    (hj : J a b sh0 old ext sh up lo todo) {i : Nat} (hi : i ∈ todo) :
+theorem J.todo_live {sh : Nat → Option Node} {up lo todo : List Nat} (hp : Pre a b P sh0 old)
+    (hj : J a b P sh0 old ext sh up lo todo) {i : Nat} (hi : i ∈ todo) :
     ∃ n, sh i = some n ∧ sh0 i = some n ∧ n.level = a := by
   obtain ⟨ho, hs⟩ := hj.todoSh i hi
   obtain ⟨n, hn, hl⟩ := (hp.old_iff i).mp ho
@@ -122,9 +122,9 @@ theorem J.todo_live {sh : Nat → Option Node} {up lo todo : List Nat} (hp : Pre
 
 
 theorem J.move {sh : Nat → Option Node} {up lo todo : List Nat} {i : Nat} {n : Node}
-    (hp : Pre a b sh0 old) (hj : J a b sh0 old ext sh up lo (i :: todo))
-    (hn : sh0 i = some n) (ht : Bel a b sh0 n.t) (he : Bel a b sh0 n.e) :
-    J a b sh0 old ext sh up (i :: lo) todo := by
+    (hp : Pre a b P sh0 old) (hj : J a b P sh0 old ext sh up lo (i :: todo))
+    (hn : sh0 i = some n) (ht : Bel a b P sh0 n.t) (he : Bel a b P sh0 n.e) :
+    J a b P sh0 old ext sh up (i :: lo) todo := by
   have hit : i ∉ todo := (List.nodup_cons.mp hj.ndTodo).1
   obtain ⟨hio, hsi⟩ := hj.todoSh i (by simp)
   have hla : n.level = a := by
@@ -194,10 +194,10 @@ theorem J.move {sh : Nat → Option Node} {up lo todo : List Nat} {i : Nat} {n :
 
 
 theorem J.alloc {sh : Nat → Option Node} {up lo todo : List Nat} {j : Nat} {x y : Edge}
-    (hp : Pre a b sh0 old) (hj : J a b sh0 old ext sh up lo todo)
-    (hfree : sh j = none) (hxy : x ≠ y) (hx : Bel a b sh0 x) (hy : Bel a b sh0 y)
+    (hp : Pre a b P sh0 old) (hj : J a b P sh0 old ext sh up lo todo)
+    (hfree : sh j = none) (hxy : x ≠ y) (hx : Bel a b P sh0 x) (hy : Bel a b P sh0 y)
     (hno : ∀ k, (k ∈ old ∨ k ∈ lo) → ∀ l, sh k ≠ some ⟨l, x, y⟩) :
-    J a b sh0 old ext (upd sh j (some ⟨a, x, y⟩)) up (j :: lo) todo := by
+    J a b P sh0 old ext (upd sh j (some ⟨a, x, y⟩)) up (j :: lo) todo := by
   have hsame : ∀ k, sh k ≠ none → upd sh j (some ⟨a, x, y⟩) k = sh k := fun k hk =>
     upd_ne _ _ (fun h => hk (h ▸ hfree))
   have hju : j ∉ up := fun h => hj.up_live h hfree
@@ -284,37 +284,37 @@ theorem J.alloc {sh : Nat → Option Node} {up lo todo : List Nat} {j : Nat} {x 
       · exact Or.inr (Or.inr (Or.inl h))
       · exact Or.inr (Or.inr (Or.inr (by simp [h])))
 
-theorem bel_cof0 (hp : Pre a b sh0 old) {c : Edge} (hc : Bel a b sh0 c ∨ AtB b sh0 c) :
-    Bel a b sh0 (cof0 b sh0 c).1 ∧ Bel a b sh0 (cof0 b sh0 c).2 := by
+theorem bel_cof0 (hp : Pre a b P sh0 old) {c : Edge} (hc : Bel a b P sh0 c ∨ AtB b sh0 c) :
+    Bel a b P sh0 (cof0 b sh0 c).1 ∧ Bel a b P sh0 (cof0 b sh0 c).2 := by
   rcases hc with hc | ⟨k, n, rfl, hn, hl⟩
   · cases c with
     | term v => exact ⟨trivial, trivial⟩
     | inner k =>
-      obtain ⟨n, hn, h1, h2⟩ := hc
+      obtain ⟨n, hn, h1, h2, h3⟩ := hc
       simp only [cof0, hn, h2, if_false]
-      exact ⟨⟨n, hn, h1, h2⟩, ⟨n, hn, h1, h2⟩⟩
+      exact ⟨⟨n, hn, h1, h2, h3⟩, ⟨n, hn, h1, h2, h3⟩⟩
   · simp only [cof0, hn, hl, if_true]
     exact hp.lowKids k n hn hl
 
-theorem cof0_of_bel {c : Edge} (hc : Bel a b sh0 c) : cof0 b sh0 c = (c, c) := by
+theorem cof0_of_bel {c : Edge} (hc : Bel a b P sh0 c) : cof0 b sh0 c = (c, c) := by
   cases c with
   | term v => rfl
   | inner k =>
-    obtain ⟨n, hn, h1, h2⟩ := hc
+    obtain ⟨n, hn, h1, h2, _⟩ := hc
     simp only [cof0, hn, h2, if_false]
 
-theorem not_bel_of_atB {c : Edge} (hc : AtB b sh0 c) : ¬ Bel a b sh0 c := by
+theorem not_bel_of_atB {c : Edge} (hc : AtB b sh0 c) : ¬ Bel a b P sh0 c := by
   obtain ⟨k, n, rfl, hn, hl⟩ := hc
-  rintro ⟨n', hn', _, h2⟩
+  rintro ⟨n', hn', _, h2, _⟩
   rw [hn] at hn'; cases hn'; exact h2 hl
 
 theorem J.rewrite {sh : Nat → Option Node} {up lo todo : List Nat} {i : Nat} {n : Node}
     {c1 c2 : Edge}
-    (hp : Pre a b sh0 old) (hj : J a b sh0 old ext sh up lo (i :: todo))
-    (hn : sh0 i = some n) (hnb : ¬ (Bel a b sh0 n.t ∧ Bel a b sh0 n.e))
+    (hp : Pre a b P sh0 old) (hj : J a b P sh0 old ext sh up lo (i :: todo))
+    (hn : sh0 i = some n) (hnb : ¬ (Bel a b P sh0 n.t ∧ Bel a b P sh0 n.e))
     (h1 : MkR a sh lo (i :: todo) (cof0 b sh0 n.t).1 (cof0 b sh0 n.e).1 c1)
     (h2 : MkR a sh lo (i :: todo) (cof0 b sh0 n.t).2 (cof0 b sh0 n.e).2 c2) :
-    J a b sh0 old ext (upd sh i (some ⟨b, c1, c2⟩)) (i :: up) lo todo := by
+    J a b P sh0 old ext (upd sh i (some ⟨b, c1, c2⟩)) (i :: up) lo todo := by
   have hit : i ∉ todo := (List.nodup_cons.mp hj.ndTodo).1
   obtain ⟨hio, hsi⟩ := hj.todoSh i (by simp)
   have hla : n.level = a := by
@@ -323,11 +323,11 @@ theorem J.rewrite {sh : Nat → Option Node} {up lo todo : List Nat} {i : Nat} {
   have hiu : i ∉ up := fun h => hj.dUT i h (by simp)
   have hil : i ∉ lo := fun h => hj.dLT i h (by simp)
   have hsame : ∀ k, k ≠ i → upd sh i (some ⟨b, c1, c2⟩) k = sh k := fun k hk => upd_ne _ _ hk
-  have hni : ∀ x y, Bel a b sh0 x → Bel a b sh0 y → sh i ≠ some ⟨a, x, y⟩ := by
+  have hni : ∀ x y, Bel a b P sh0 x → Bel a b P sh0 y → sh i ≠ some ⟨a, x, y⟩ := by
     intro x y hx hy h
     rw [hsi, hn] at h; cases h; exact hnb ⟨hx, hy⟩
   -- monotonicity of `MkR` for Bel grandchildren
-  have hmk : ∀ {x y c : Edge}, Bel a b sh0 x → Bel a b sh0 y → MkR a sh lo (i :: todo) x y c →
+  have hmk : ∀ {x y c : Edge}, Bel a b P sh0 x → Bel a b P sh0 y → MkR a sh lo (i :: todo) x y c →
       MkR a (upd sh i (some ⟨b, c1, c2⟩)) lo todo x y c := by
     intro x y c hx hy h
     refine h.mono (fun m hm hs => ?_)
@@ -339,8 +339,8 @@ theorem J.rewrite {sh : Nat → Option Node} {up lo todo : List Nat} {i : Nat} {
       · exact absurd hm hmi
       · exact Or.inr hm
   have hcofs : ∀ k n', k ∈ old → sh0 k = some n' →
-      (Bel a b sh0 (cof0 b sh0 n'.t).1 ∧ Bel a b sh0 (cof0 b sh0 n'.t).2) ∧
-      (Bel a b sh0 (cof0 b sh0 n'.e).1 ∧ Bel a b sh0 (cof0 b sh0 n'.e).2) := by
+      (Bel a b P sh0 (cof0 b sh0 n'.t).1 ∧ Bel a b P sh0 (cof0 b sh0 n'.t).2) ∧
+      (Bel a b P sh0 (cof0 b sh0 n'.e).1 ∧ Bel a b P sh0 (cof0 b sh0 n'.e).2) := by
     intro k n' hk hn'
     obtain ⟨n'', hn'', hl⟩ := (hp.old_iff k).mp hk
     rw [hn'] at hn''; cases hn''
@@ -408,10 +408,10 @@ theorem J.rewrite {sh : Nat → Option Node} {up lo todo : List Nat} {i : Nat} {
     exact ⟨g1, fun p m hm hc => g2 p m hm (by rcases hc with h | h; exact Or.inl h; exact Or.inr (by simp [h]))⟩
 
 theorem J.remove {sh : Nat → Option Node} {up lo todo : List Nat} {j : Nat}
-    (hp : Pre a b sh0 old) (hj : J a b sh0 old ext sh up lo todo)
+    (hp : Pre a b P sh0 old) (hj : J a b P sh0 old ext sh up lo todo)
     (hju : j ∈ up) (hs : SurvL b sh0 sh j) (hext : ext j = 0)
     (hnoref : ∀ p m, sh p = some m → m.t ≠ .inner j ∧ m.e ≠ .inner j) :
-    J a b sh0 old ext (upd sh j none) (up.erase j) lo todo := by
+    J a b P sh0 old ext (upd sh j none) (up.erase j) lo todo := by
   obtain ⟨nj, hnj, hlj, hsj⟩ := hs
   have hjl : j ∉ lo := hj.dUL j hju
   have hjt : j ∉ todo := hj.dUT j hju
@@ -484,15 +484,15 @@ theorem J.remove {sh : Nat → Option Node} {up lo todo : List Nat} {j : Nat}
 
 /-- a node of level `a` in the current shape is not "below" -/
 theorem J.not_bel_of_level_a {sh : Nat → Option Node} {up lo todo : List Nat}
-    (hj : J a b sh0 old ext sh up lo todo) {j : Nat} {x y : Edge}
-    (hs : sh j = some ⟨a, x, y⟩) : ¬ Bel a b sh0 (.inner j) := by
-  rintro ⟨m, hm, h1, h2⟩
+    (hj : J a b P sh0 old ext sh up lo todo) {j : Nat} {x y : Edge}
+    (hs : sh j = some ⟨a, x, y⟩) : ¬ Bel a b P sh0 (.inner j) := by
+  rintro ⟨m, hm, h1, h2, _⟩
   have := hj.frame j m hm h1 h2
   rw [hs] at this; cases this; exact h1 rfl
 
 theorem MkR.inj {sh : Nat → Option Node} {up lo todo : List Nat}
-    (hj : J a b sh0 old ext sh up lo todo) {x y x' y' c : Edge}
-    (hx : Bel a b sh0 x) (hx' : Bel a b sh0 x')
+    (hj : J a b P sh0 old ext sh up lo todo) {x y x' y' c : Edge}
+    (hx : Bel a b P sh0 x) (hx' : Bel a b P sh0 x')
     (h : MkR a sh lo todo x y c) (h' : MkR a sh lo todo x' y' c) : x = x' ∧ y = y' := by
   rcases h with ⟨e1, e2⟩ | ⟨_, j, _, e2, e3⟩ <;> rcases h' with ⟨f1, f2⟩ | ⟨_, j', _, f2, f3⟩
   · subst e1 f1; rw [e2] at f2; exact ⟨f2, f2⟩
@@ -505,14 +505,14 @@ theorem MkR.inj {sh : Nat → Option Node} {up lo todo : List Nat}
     exact ⟨f4, f5⟩
 
 theorem MkR.eq_of_bel {sh : Nat → Option Node} {up lo todo : List Nat}
-    (hj : J a b sh0 old ext sh up lo todo) {x y c : Edge}
-    (h : MkR a sh lo todo x y c) (hc : Bel a b sh0 c) : x = y := by
+    (hj : J a b P sh0 old ext sh up lo todo) {x y c : Edge}
+    (h : MkR a sh lo todo x y c) (hc : Bel a b P sh0 c) : x = y := by
   rcases h with ⟨e1, _⟩ | ⟨_, j, _, e2, e3⟩
   · exact e1
   · subst e2; exact absurd hc (hj.not_bel_of_level_a e3)
 
-theorem cof0_inj (hp : Pre a b sh0 old) {c c' : Edge}
-    (hc : Bel a b sh0 c ∨ AtB b sh0 c) (hc' : Bel a b sh0 c' ∨ AtB b sh0 c')
+theorem cof0_inj (hp : Pre a b P sh0 old) {c c' : Edge}
+    (hc : Bel a b P sh0 c ∨ AtB b sh0 c) (hc' : Bel a b P sh0 c' ∨ AtB b sh0 c')
     (h : cof0 b sh0 c = cof0 b sh0 c') : c = c' := by
   rcases hc with hc | ⟨k, n, rfl, hn, hl⟩ <;> rcases hc' with hc' | ⟨k', n', rfl, hn', hl'⟩
   · rw [cof0_of_bel hc, cof0_of_bel hc'] at h; injection h
@@ -533,11 +533,11 @@ theorem cof0_inj (hp : Pre a b sh0 old) {c c' : Edge}
 
 /-- the two new children of a rewritten node are not both below -/
 theorem J.rew_not_bel {sh : Nat → Option Node} {up lo todo : List Nat}
-    (hp : Pre a b sh0 old) (hj : J a b sh0 old ext sh up lo todo) {i : Nat} {n : Node}
+    (hp : Pre a b P sh0 old) (hj : J a b P sh0 old ext sh up lo todo) {i : Nat} {n : Node}
     {c1 c2 : Edge} (hn : sh0 i = some n) (hla : n.level = a)
     (h1 : MkR a sh lo todo (cof0 b sh0 n.t).1 (cof0 b sh0 n.e).1 c1)
     (h2 : MkR a sh lo todo (cof0 b sh0 n.t).2 (cof0 b sh0 n.e).2 c2) :
-    ¬ (Bel a b sh0 c1 ∧ Bel a b sh0 c2) := by
+    ¬ (Bel a b P sh0 c1 ∧ Bel a b P sh0 c2) := by
   rintro ⟨b1, b2⟩
   have e1 := h1.eq_of_bel hj b1
   have e2 := h2.eq_of_bel hj b2
@@ -547,7 +547,7 @@ theorem J.rew_not_bel {sh : Nat → Option Node} {up lo todo : List Nat}
 
 /-- two rewritten nodes with the same new children are the same node -/
 theorem J.rew_inj {sh : Nat → Option Node} {up lo todo : List Nat}
-    (hp : Pre a b sh0 old) (hj : J a b sh0 old ext sh up lo todo) {i i' : Nat} {n n' : Node}
+    (hp : Pre a b P sh0 old) (hj : J a b P sh0 old ext sh up lo todo) {i i' : Nat} {n n' : Node}
     {c1 c2 : Edge} (hn : sh0 i = some n) (hla : n.level = a)
     (hn' : sh0 i' = some n') (hla' : n'.level = a)
     (h1 : MkR a sh lo todo (cof0 b sh0 n.t).1 (cof0 b sh0 n.e).1 c1)
@@ -567,22 +567,22 @@ theorem J.rew_inj {sh : Nat → Option Node} {up lo todo : List Nat}
 
 /-- the entries of the new upper table all have level `b` -/
 theorem J.up_level {sh : Nat → Option Node} {up lo todo : List Nat}
-    (hj : J a b sh0 old ext sh up lo todo) {k : Nat} (hk : k ∈ up) :
+    (hj : J a b P sh0 old ext sh up lo todo) {k : Nat} (hk : k ∈ up) :
     ∃ x y, sh k = some ⟨b, x, y⟩ := by
   rcases hj.upC k hk with ⟨n, _, hl, hs⟩ | ⟨_, _, n, c1, c2, _, _, hs, _⟩
   · exact ⟨n.t, n.e, by rw [hs, ← hl]⟩
   · exact ⟨c1, c2, hs⟩
 
 /-- a surviving node of the old lower level has both children below -/
-theorem survL_bel (hp : Pre a b sh0 old) {sh : Nat → Option Node} {k : Nat} {l : Nat} {x y : Edge}
-    (hs : SurvL b sh0 sh k) (hk : sh k = some ⟨l, x, y⟩) : Bel a b sh0 x ∧ Bel a b sh0 y := by
+theorem survL_bel (hp : Pre a b P sh0 old) {sh : Nat → Option Node} {k : Nat} {l : Nat} {x y : Edge}
+    (hs : SurvL b sh0 sh k) (hk : sh k = some ⟨l, x, y⟩) : Bel a b P sh0 x ∧ Bel a b P sh0 y := by
   obtain ⟨n, hn, hl, hs'⟩ := hs
   rw [hk] at hs'; cases hs'
   exact hp.lowKids k _ hn hl
 
 /-- a (candidate) rewritten node collides with no entry of the new upper table but itself -/
 theorem J.rew_vs_up {sh : Nat → Option Node} {up lo todo : List Nat}
-    (hp : Pre a b sh0 old) (hj : J a b sh0 old ext sh up lo todo) {i : Nat} {n : Node}
+    (hp : Pre a b P sh0 old) (hj : J a b P sh0 old ext sh up lo todo) {i : Nat} {n : Node}
     {c1 c2 : Edge} (hn : sh0 i = some n) (hla : n.level = a)
     (h1 : MkR a sh lo todo (cof0 b sh0 n.t).1 (cof0 b sh0 n.e).1 c1)
     (h2 : MkR a sh lo todo (cof0 b sh0 n.t).2 (cof0 b sh0 n.e).2 c2)
@@ -597,7 +597,7 @@ theorem J.rew_vs_up {sh : Nat → Option Node} {up lo todo : List Nat}
 
 /-- **no duplicates in the new upper table**: two entries with the same children coincide -/
 theorem J.up_unique {sh : Nat → Option Node} {up lo todo : List Nat}
-    (hp : Pre a b sh0 old) (hj : J a b sh0 old ext sh up lo todo) {k m l l' : Nat} {x y : Edge}
+    (hp : Pre a b P sh0 old) (hj : J a b P sh0 old ext sh up lo todo) {k m l l' : Nat} {x y : Edge}
     (hk : k ∈ up) (hm : m ∈ up) (hsk : sh k = some ⟨l, x, y⟩) (hsm : sh m = some ⟨l', x, y⟩) :
     k = m := by
   rcases hj.upC m hm with hsv | ⟨g1, _, n', d1, d2, g3, _, g5, g6, g7⟩
